@@ -23,6 +23,9 @@ G3mixed == [a |-> [path |-> "bcast", kind |-> "normal", ctl |-> "S1"], b |-> [pa
             c |-> [path |-> "tcp", kind |-> "status", ctl |-> "S3"]]
 G3same == [a |-> [path |-> "bcast", kind |-> "normal", ctl |-> "S1"], b |-> [path |-> "udp", kind |-> "normal", ctl |-> "S1"],
            c |-> [path |-> "bcast", kind |-> "normal", ctl |-> "S1"]]
+\* C08 on the TCP path: calls that queue for the shared fixed port and then talk TCP (each to its own controller endpoint)
+G3tcp == [a |-> [path |-> "tcp", kind |-> "normal", ctl |-> "S1"], b |-> [path |-> "tcp", kind |-> "normal", ctl |-> "S2"],
+          c |-> [path |-> "bcast", kind |-> "normal", ctl |-> "S3"]]
 G4same == [a |-> [path |-> "bcast", kind |-> "normal", ctl |-> "S1"], b |-> [path |-> "bcast", kind |-> "normal", ctl |-> "S1"],
            c |-> [path |-> "udp", kind |-> "normal", ctl |-> "S1"], d |-> [path |-> "bcast", kind |-> "normal", ctl |-> "S2"]]
 ============================================================================
